@@ -100,7 +100,7 @@ Proof. exact zoom_sections_encoded. Qed.
 Print Assumptions C07_sections_encoded.
 
 (* levels are listed with strictly increasing resolution, all >= 1 ([inc_from 0 l]: 0 < l1 < l2 < ...),
-   and there are at most MAX_ZOOM_LEVELS of them (the directory has that many slots; /repo adc453b).
+   and there are at most MAX_ZOOM_LEVELS of them (the directory has that many slots; /repo 3a3ac98).
    [build_levels] is the level list exactly as bw_write / bw_write_multipass build it
    (bw_write_uses_build_levels, by reflexivity).  Single pass: the directory is the sub-sequence of
    the normalised size list that write_zooms keeps. *)
